@@ -35,10 +35,65 @@ def _is_ser(lib, src_enum, body, op):
     """Operand is the constant `Ser` variant of the source enum."""
     tr = trace(body, op)
     if tr.origin and tr.origin[0] == "agg" and tr.origin[1]["rv"].get("adt") == src_enum:
-        return tr.origin[1]["rv"]["variant"] == "Ser" and all(s[0] == "use" for s in tr.steps)
+        return tr.origin[1]["rv"]["variant"] == _roles(lib)["ser"] and all(s[0] == "use" for s in tr.steps)
     if tr.origin and tr.origin[0] == "const":
-        return tr.origin[1].get("variant") == "Ser"
+        return tr.origin[1].get("variant") == _roles(lib)["ser"]
     return False
+
+
+_ROLES = {}
+
+
+def _entry_arms(lib):
+    """The transcoder entry (fn(ser, de) calling deserialize_any), the two-variant error it builds, and for
+    each of the two error aggregates the error-source variant on whose arm it is built."""
+    cap, st, src_enum = _capture_fn(lib)
+    entry = None
+    for b in lib.bodies:
+        if b.raw["def_kind"] == "Fn" and b.nargs == 2 and any((fn_of(t) or {}).get("name") == "deserialize_any" for _, t in b.calls()):
+            entry = b
+    if entry is None:
+        raise AnchorLost("transcoder entry (fn(ser, de) calling deserialize_any) not found")
+    err_adt = None
+    aggs = []
+    for bi in sorted(entry.reach()):
+        for s in entry.blocks[bi]["stmts"]:
+            if s["k"] == "assign" and s["rv"]["k"] == "aggregate" and s["rv"].get("agg") == "adt":
+                a = lib.adts.get(s["rv"]["adt"])
+                if a and a["crate"] == "xt" and a["kind"] == "enum" and len(a["variants"]) == 2 and a["path"] != src_enum and sorted(len(v_["fields"]) for v_ in a["variants"]) == [1, 2]:
+                    err_adt = s["rv"]["adt"]
+                    aggs.append((bi, s))
+    if not (err_adt and len(aggs) == 2):
+        raise AnchorLost("two-variant transcoding error not built in the entry")
+    out = []
+    for bi, s in aggs:
+        arm = None
+        for sb in entry.reach():
+            sw = entry.blocks[sb]["term"]
+            if sw["k"] != "switch":
+                continue
+            tr = trace(entry, sw["discr"])
+            if tr.origin and tr.origin[0] == "call" and (fn_of(tr.origin[2]) or {}).get("impl_self_adt") == st and tr.has("discr"):
+                for var in lib.adts[src_enum]["variants"]:
+                    e = enum_edge(entry, sb, var["idx"])
+                    if e and entry.edge_dominates(e[0], e[1], e[2], bi):
+                        arm = var["name"]
+        out.append((bi, s, arm))
+    return entry, err_adt, out
+
+
+def _roles(lib):
+    """{'ser': variant, 'de': variant} of the error-source enum: 'ser' is the source on whose arm the
+    top level builds the two-field error (captured serializer error + deserializer error)."""
+    k = id(lib)
+    if k not in _ROLES:
+        entry, err_adt, arms = _entry_arms(lib)
+        two = [arm for bi, s_, arm in arms if len(s_["rv"]["ops"]) == 2]
+        one = [arm for bi, s_, arm in arms if len(s_["rv"]["ops"]) == 1]
+        if len(two) != 1 or len(one) != 1 or two[0] is None or one[0] is None or two[0] == one[0]:
+            raise AnchorLost(f"error-source roles not identifiable from the top-level arms (two-field on {two}, one-field on {one})")
+        _ROLES[k] = {"ser": two[0], "de": one[0]}
+    return _ROLES[k]
 
 
 @rule("R11.1", 3, "State invariant source==Ser => error captured: the source cell is written only together with Some(error) or by copying both cells", ["C11", "C04"])
@@ -102,7 +157,7 @@ def r11_1(ctx):
                             init = a.origin[1]["rv"]["variant"]
                         elif a.origin and a.origin[0] == "const":
                             init = a.origin[1].get("variant")
-                    ctx.ob(f"initial-source:{b.name}", init == "De", site(b, bi), f"a fresh state starts with source {init}")
+                    ctx.ob(f"initial-source:{b.name}", init == _roles(lib)["de"], site(b, bi), f"a fresh state starts with source {init} (the deserializer's side: {_roles(lib)['de']})")
 
 
 def _capture_fn(lib):
@@ -211,50 +266,23 @@ def r11_2(ctx):
 def r11_3(ctx):
     lib = ctx.lib
     cap, st, src_enum = _capture_fn(lib)
-    # the transcoder entry: local fn (ser, de) that calls deserialize_any and builds the two-variant error
-    entry = None
-    for b in lib.bodies:
-        if b.raw["def_kind"] == "Fn" and b.nargs == 2 and any((fn_of(t) or {}).get("name") == "deserialize_any" for _, t in b.calls()):
-            entry = b
-    ctx.need(entry, "transcoder entry (fn(ser, de) calling deserialize_any) not found")
-    err_adt = None
-    aggs = []
-    for bi in sorted(entry.reach()):
-        for s in entry.blocks[bi]["stmts"]:
-            if s["k"] == "assign" and s["rv"]["k"] == "aggregate" and s["rv"].get("agg") == "adt" and s["rv"]["adt"].startswith("transcode::"):
-                a = lib.adts.get(s["rv"]["adt"])
-                if a and a["kind"] == "enum" and len(a["variants"]) == 2:
-                    err_adt = s["rv"]["adt"]
-                    aggs.append((bi, s))
-    ctx.need(err_adt and len(aggs) == 2, "two-variant transcoding error not built in the entry")
+    entry, err_adt, arms = _entry_arms(lib)
+    roles = _roles(lib)
     de_call = [t for _, t in entry.calls() if (fn_of(t) or {}).get("name") == "deserialize_any"][0]
-    for bi, s in aggs:
+    for bi, s, arm in arms:
         v = s["rv"]["variant"]
         ops = s["rv"]["ops"]
-        # which arm of the source switch?
-        arm = None
-        for sb in entry.reach():
-            sw = entry.blocks[sb]["term"]
-            if sw["k"] != "switch":
-                continue
-            tr = trace(entry, sw["discr"])
-            if tr.origin and tr.origin[0] == "call" and (fn_of(tr.origin[2]) or {}).get("impl_self_adt") == st and tr.has("discr"):
-                e = lib.adts[src_enum]
-                for var in e["variants"]:
-                    tg = [x for vv, x in sw["targets"] if vv == var["idx"]]
-                    if tg and entry.edge_dominates(sb, var["idx"], tg[0], bi):
-                        arm = var["name"]
         if len(ops) == 2:
             s_tr = trace(entry, ops[0], passthrough_extra=("std::option::Option::<T>::unwrap", "std::option::Option::<T>::expect"))
             d_tr = trace(entry, ops[1])
             from_state = bool(s_tr.origin and s_tr.origin[0] == "call" and (fn_of(s_tr.origin[2]) or {}).get("impl_self_adt") == st)
             from_de = bool(d_tr.origin and d_tr.origin[0] == "call" and d_tr.origin[2] is de_call and any(x[0] == "downcast" and x[1] == "Err" for x in d_tr.steps))
-            ok = arm == "Ser" and from_state and from_de
+            ok = arm == roles["ser"] and from_state and from_de
             ctx.ob(f"entry:{v}", ok, site(entry, bi), f"on the {arm} arm: (captured serializer error, deserializer error)" if ok else f"two-field error built on arm {arm} from state={from_state}, de={from_de}")
         else:
             d_tr = trace(entry, ops[0])
             from_de = bool(d_tr.origin and d_tr.origin[0] == "call" and d_tr.origin[2] is de_call)
-            ok = arm == "De" and from_de
+            ok = arm == roles["de"] and from_de
             ctx.ob(f"entry:{v}", ok, site(entry, bi), f"on the {arm} arm: the deserializer's own error" if ok else f"single-field error built on arm {arm}")
     # Display
     disp = [b for b in lib.bodies if b.raw.get("impl_trait") == "std::fmt::Display" and b.raw.get("impl_self_adt") == err_adt]
